@@ -133,3 +133,19 @@ def search(ctx):
 
 def known_signature(f, kf):
     return kf["id"] == "F-COHERENCE" and not R.coherent(f.case["costs"], plain=("thl" in f.batch))
+
+
+def replay_case(payload):
+    """exact_sample findings: which solver the stored input belongs to is read off its shape"""
+    case = payload["case"]
+    leaves = R.otree_leaves(case["O"])
+    if all(not l.get("syn") for _, l in leaves):
+        r = c01.impl_thl(case)
+        ok, why = c01.oracle_thl(case, r)
+    elif "pres" in case:
+        r = c02.impl(case)
+        ok, why = c02.oracle(case, r)
+    else:
+        r = c03.impl(case)
+        ok, why = oracle_unordered_exact(case, r)
+    return ok, why, r
